@@ -95,7 +95,7 @@ CATALOGUE = [
      "default to-date is today's date"),
     ("m17-row-before-time", "C17", R + "abstract_entry_set.py",
      "def _entry_sort_key(entry: AbstractEntry) -> datetime:\n    return entry.timestamp\n",
-     "def _entry_sort_key(entry: AbstractEntry) -> Any:\n    return (entry.timestamp.date(), getattr(entry, \"row\", 0), entry.timestamp)\n",
+     "def _entry_sort_key(entry: AbstractEntry) -> tuple:  # type: ignore\n    return (entry.timestamp.date(), getattr(entry, \"row\", 0), entry.timestamp)\n",
      "entries of the same day ordered by input row before time"),
     ("m17-revert-f1", "C17", R + "plugin/report/rp2_full_report.py",
      "        self.__in_out_sheet_transaction_2_row = {}\n",
